@@ -186,7 +186,12 @@ func genInput(t *rapid.T, kind string) []byte {
 	if _, ok := seeds.Mediatype[kind]; !ok {
 		base = rapid.SampledFrom(seeds.Kinds).Draw(t, "basekind")
 	}
-	switch rapid.IntRange(0, 9).Draw(t, "src") {
+	switch rapid.IntRange(0, 10).Draw(t, "src") {
+	case 10:
+		if b := boundaryDoc(t, kind); b != nil {
+			return b
+		}
+		return rapid.SliceOfN(rapid.Byte(), 0, 64).Draw(t, "rand")
 	case 0:
 		return rapid.SliceOfN(rapid.Byte(), 0, 64).Draw(t, "rand")
 	case 1:
@@ -203,6 +208,60 @@ func genInput(t *rapid.T, kind string) []byte {
 		other := seeds.Doc(t, rapid.SampledFrom(seeds.Kinds).Draw(t, "splicekind"))
 		return []byte(mutate.Mutate(t, seeds.Doc(t, base), other, 4))
 	}
+}
+
+// keywords the minifiers compare prefixes of values with; every truncation of them is a length boundary of that code
+var boundaryWords = []string{"https://a", "http://a", "data:text/css;base64,YXt9", "data:,a", "javascript:a()", "text/javascript", "text/css;charset=utf-8", "utf-8", "text/html; charset=utf-8", "module", "application/ld+json", "stylesheet", "content-type", "url(a)", "rgba(0,0,0,0)", "progid:DXImageTransform.Microsoft.Alpha(Opacity=50)", "U+0-7F", "!important", "local(a)", "calc(1px + 2px)", "var(--a)", "<![CDATA[a]]>", "<!--[if IE]>a<![endif]-->", "<!DOCTYPE html>", "</script>", "&amp;", "&#x26;", "&#38;", "M0 0L1 1z", "1e309", "xMidYMid meet"}
+
+// boundaryWord is a keyword cut at any length, optionally with another case and a trailing character
+func boundaryWord(t *rapid.T) string {
+	w := rapid.SampledFrom(boundaryWords).Draw(t, "bword")
+	w = w[:rapid.IntRange(0, len(w)).Draw(t, "bcut")]
+	switch rapid.IntRange(0, 5).Draw(t, "bcase") {
+	case 0:
+		w = strings.ToUpper(w)
+	case 1:
+		w += rapid.SampledFrom([]string{":", ";", " ", "(", "/", "\"", "=", "\x00", "s", "#"}).Draw(t, "btail")
+	}
+	return w
+}
+
+// boundaryDoc puts such words where the minifiers look at them: attribute values, types, declaration values, text
+func boundaryDoc(t *rapid.T, kind string) []byte {
+	w := boundaryWord(t)
+	q := rapid.SampledFrom([]string{"\"", "'", ""}).Draw(t, "bquote")
+	switch kind {
+	case "html":
+		tag := rapid.SampledFrom([]string{"a", "img", "script", "style", "link", "meta", "form", "input", "iframe", "object", "svg", "div", "button"}).Draw(t, "btag")
+		attr := rapid.SampledFrom([]string{"href", "src", "action", "type", "content", "rel", "charset", "http-equiv", "style", "onclick", "media", "lang", "value", "name", "data", "xmlns", "srcset", "method", "formaction", "class"}).Draw(t, "battr")
+		w2 := ""
+		if rapid.Bool().Draw(t, "btwo") {
+			w2 = " " + rapid.SampledFrom([]string{"content", "type", "href", "rel", "src"}).Draw(t, "battr2") + "=" + q + boundaryWord(t) + q
+		}
+		return []byte("<" + tag + " " + attr + "=" + q + w + q + w2 + ">" + boundaryWord(t) + "</" + tag + ">")
+	case "css":
+		prop := rapid.SampledFrom([]string{"background", "color", "font", "filter", "src", "unicode-range", "margin", "content", "width", "transform", "grid-template-columns", "--x"}).Draw(t, "bprop")
+		switch rapid.IntRange(0, 3).Draw(t, "bcssform") {
+		case 0:
+			return []byte("@import " + w + ";a{b:c}")
+		case 1:
+			return []byte("@" + w + " x{a{b:c}}")
+		case 2:
+			return []byte("a[b=" + q + w + q + "]{" + prop + ":" + boundaryWord(t) + "}")
+		}
+		return []byte("a{" + prop + ":" + w + " " + boundaryWord(t) + "}")
+	case "svg", "xml":
+		attr := rapid.SampledFrom([]string{"d", "points", "style", "fill", "viewBox", "xlink:href", "href", "transform", "preserveAspectRatio", "version", "x", "type", "xml:space"}).Draw(t, "bxattr")
+		if q == "" {
+			q = "\""
+		}
+		return []byte("<svg xmlns=\"http://www.w3.org/2000/svg\" " + attr + "=" + q + w + q + "><path " + attr + "=" + q + boundaryWord(t) + q + "/><style>" + boundaryWord(t) + "</style>" + boundaryWord(t) + "</svg>")
+	case "js":
+		return []byte("x=" + q + w + q + ";" + boundaryWord(t))
+	case "json":
+		return []byte("{\"a\":" + w + ",\"b\":\"" + boundaryWord(t) + "\"}")
+	}
+	return nil
 }
 
 func helperInput(t *rapid.T, target string) []byte {
@@ -290,7 +349,7 @@ func TestCampaignArbitrary(t *testing.T) {
 var families = map[string][]string{
 	"js":   {"paren", "bracket", "brace-block", "object", "arrow", "unary", "ternary", "binary-left", "template-nest", "long-string", "long-regex", "stmts", "long-ident", "comment", "call-chain", "assign-chain", "if-else-chain", "function-nest", "class-nest", "new-chain", "comma"},
 	"html": {"div-open", "div-nested-closed", "attrs", "long-attr", "long-text", "comment", "svg-nest", "p-open", "table-nest", "entity-text", "entity-attr", "script-long", "b-unclosed", "lt-run"},
-	"css":  {"rules", "media-nest", "paren-value", "long-ident", "selector-list", "comment", "brace-open", "long-url", "values", "important", "function-nest", "function-nest-closed", "calc-nest", "selector-fn-nest", "bracket-value", "var-nest", "at-fn-nest"},
+	"css":  {"rules", "media-nest", "paren-value", "long-ident", "selector-list", "comment", "brace-open", "long-url", "values", "important", "function-nest", "function-nest-closed", "calc-nest", "selector-fn-nest", "bracket-value", "var-nest", "at-fn-nest", "values-outline", "values-border", "values-background", "values-font", "values-shadow", "values-transition", "values-flex", "values-decoration", "values-zero", "values-color", "values-comma"},
 	"svg":  {"g-nest", "path-long", "attrs", "text-long", "g-open", "entity-text", "style-long"},
 	"xml":  {"open-nest", "closed-nest", "attrs", "cdata-long", "text-long", "comment", "entity-text", "entity-attr", "cdata-many", "pi-many"},
 	"json": {"array-nest", "object-nest", "long-string", "numbers", "array-open"},
@@ -409,6 +468,28 @@ func family(name string, n int) string {
 		return "a{color:" + rep("var(--x,", n/9) + "red" + rep(")", n/9) + "}"
 	case "css/at-fn-nest":
 		return "@supports " + rep("(not ", n/6) + "(a:b)" + rep(")", n/6) + "{a{b:c}}"
+	case "css/values-outline":
+		return "a{outline:" + rep("none ", n/5) + "}"
+	case "css/values-border":
+		return "a{border:" + rep("none ", n/5) + "}"
+	case "css/values-background":
+		return "a{background:" + rep("none ", n/5) + "}"
+	case "css/values-font":
+		return "a{font:" + rep("normal ", n/7) + "12px a}"
+	case "css/values-shadow":
+		return "a{box-shadow:" + rep("0 0 0 red,", n/10) + "0 0}"
+	case "css/values-transition":
+		return "a{transition:" + rep("all 0s ease 0s,", n/15) + "none}"
+	case "css/values-flex":
+		return "a{flex:" + rep("1 ", n/2) + "}"
+	case "css/values-decoration":
+		return "a{text-decoration:" + rep("none ", n/5) + "}"
+	case "css/values-zero":
+		return "a{padding:" + rep("0px ", n/4) + "}"
+	case "css/values-color":
+		return "a{border-color:" + rep("#ff0000 ", n/8) + "}"
+	case "css/values-comma":
+		return "a{font-family:" + rep("a,", n/2) + "b}"
 	case "css/long-ident":
 		return rep("a", n) + "{b:c}"
 	case "css/selector-list":
